@@ -21,12 +21,12 @@ Relevant files: {', '.join(p['anchors']['files'])}
 Mechanisms meant to make it hold:
 {mech}
 
-Your task: produce {n} DIFFERENT, realistic source changes to rl_blox (each a small edit, the kind of mistake a maintainer could plausibly make in a refactoring or 'optimisation') that each BREAK this property while the package still imports and the existing test suite still passes. The changes must need something specific to manifest — a particular multi-step sequence of operations, an unusual but legal input (a shape, a boundary value, wrap-around, an episode ending at a particular moment, a particular hyper-parameter combination), or two cooperating sites that each look fine alone — NOT something ordinary use would expose at once, and not a crash on every call. Each change should break a different clause / mechanism of the property. Do not add comments that reveal the change.
+Your task: produce {n} DIFFERENT, realistic source changes to rl_blox (each a small edit, the kind of mistake a maintainer could plausibly make in a refactoring or 'optimisation') that each BREAK this property while the package still imports and the existing test suite still passes. The changes must need something specific to manifest — a particular multi-step sequence of operations, an unusual but legal input (a shape, a boundary value, wrap-around, an episode ending at a particular moment, a particular hyper-parameter combination), or two cooperating sites that each look fine alone — NOT something ordinary use would expose at once, and not a crash on every call. Each change should break a different clause / mechanism of the property. Do not add comments that reveal the change. NEVER use `git stash` (the stash is shared between worktrees of other people working in parallel): to get back to a clean tree use `git diff > x.diff; git checkout -- .` and `git apply x.diff`.
 
 For each change k = 1..{n}:
  1. Make the edit in the worktree (start each change from a clean tree: `git -C {wt} checkout -- .`).
  2. Write a demonstration program {wt}/demo_k.py (plain Python script using only the library's public API plus numpy/jax/gymnasium; exit code 0 = property holds, exit code 1 = property violated, printing what was observed) that FAILS (exit 1) with the change and PASSES (exit 0) on the unchanged tree. Verify both directions yourself.
- 3. Run the relevant existing tests with the change applied: `cd {wt} && PYTHONPATH={wt} /venv/bin/python -m pytest -q -p no:cacheprovider -x tests/<relevant files>`; then the whole suite once: `cd {wt} && PYTHONPATH={wt} /venv/bin/python -m pytest -q -p no:cacheprovider --timeout=900 tests` (it takes several minutes; the machine is busy, be patient) and confirm everything passes. If a test fails, the change is not acceptable — revise it.
+ 3. Run the relevant existing tests with the change applied: `cd {wt} && PYTHONPATH={wt} /venv/bin/python -m pytest -q -p no:cacheprovider -x tests/<relevant files>`; then the whole suite once: `cd {wt} && PYTHONPATH={wt} /venv/bin/python -m pytest -q -p no:cacheprovider --timeout=900 tests` (it takes 10-25 minutes on this busy machine, tests/test_cmaes.py alone can need 15+ minutes - use --timeout=3600 if it times out under load; be patient) and confirm everything passes. If a test fails, the change is not acceptable — revise it.
  4. Save the change as {wt}/change_k.diff with `git -C {wt} diff -- rl_blox > {wt}/change_k.diff` (only files under rl_blox/), and keep demo_k.py.
 Finish with the tree clean again (`git -C {wt} checkout -- .`; the untracked change_k.diff / demo_k.py files stay).
 
